@@ -85,6 +85,10 @@ fn is_valid_domain(mut s: &str) -> bool {
         if part.as_bytes().iter().any(|&b| !b.is_ascii_alphanumeric() && b != b'-') {
             return false;
         }
+
+        if part.starts_with('-') || part.ends_with('-') {
+            return false;
+        }
     }
 
     true
